@@ -150,15 +150,49 @@ def rule_ind_flow(ctx: RuleContext, p: Program, rid: str) -> None:
     ctx.check(ok, rid, 'models.meta_item_internal:_get_default_indent', f'with parent indent: {res.get(True)}; without: {res.get(False)}',
               f'default indent evaluates to {res.get(True)} with a parent indent (P) and {res.get(False)} without; the rule is parent indent '
               f'followed by indent_by (P, B), or indent_by alone (B)', gd.where, note='(P, B) | (B)')
-    # the property wires the getter with its own arguments
+    # the property wires the getter with its own arguments: the instance is the one the wrapper is being built for -- a parameter of the
+    # enclosing factory (lambda / nested def / method called per instance) -- never state kept on the descriptor, which is one object per
+    # CLASS and shared by every model of that class
     pr = p.cls('repeated_meta_item_property', 'models.meta_item_internal')
     init = p.method(pr, '__init__', inherited=False)
-    lam = [c for c in walk_no_nested(init.node) if isinstance(c, ast.Call) and norm(c.func) == '_get_default_indent']
-    prm = init.params
-    ok = len(lam) == 1 and [norm(a) for a in lam[0].args][1:] == prm[2:4]
-    ctx.check(ok, rid, 'models.meta_item_internal:repeated_meta_item_property.__init__', norm(lam[0]) if lam else '',
-              'the default indent getter is not wired to (instance, indent_by_field, indent_property)', init.where,
-              note=norm(lam[0]) if lam else '')
+    parents: dict[int, ast.AST] = {}
+    for nd in ast.walk(pr.node):
+        for ch in ast.iter_child_nodes(nd):
+            parents[id(ch)] = nd
+    calls = [c for c in ast.walk(pr.node) if isinstance(c, ast.Call) and norm(c.func) == '_get_default_indent']
+    init_params = set(init.params[1:])
+    # attributes of self that __init__ fills from its parameters
+    self_from_param = {self_attr(a.targets[0]): a.value.id for a in walk_no_nested(init.node) if isinstance(a, ast.Assign) and len(a.targets) == 1
+                       and self_attr(a.targets[0]) and isinstance(a.value, ast.Name) and a.value.id in init_params}
+    problems_w: list[str] = []
+    for c in calls:
+        if len(c.args) < 3:
+            problems_w.append(f'`{norm(c)[:80]}` does not pass (instance, indent_by_field, indent_property)')
+            continue
+        a0 = c.args[0]
+        enclosing_params: set[str] = set()
+        cur: Optional[ast.AST] = c
+        while cur is not None and cur is not pr.node:
+            cur = parents.get(id(cur))
+            if isinstance(cur, (ast.FunctionDef, ast.Lambda)):
+                aa = cur.args
+                enclosing_params |= {x.arg for x in [*aa.posonlyargs, *aa.args, *aa.kwonlyargs]}
+        enclosing_params.discard('self')
+        if not (isinstance(a0, ast.Name) and a0.id in enclosing_params and a0.id not in init_params):
+            problems_w.append(f'`{norm(c)[:90]}`: the model whose indentation is the default is `{norm(a0)}`, not the instance the wrapper is built for '
+                              f'(a parameter of the per-instance factory); state kept on the descriptor is shared by every model of the class, so one '
+                              f'model\'s new meta items take another model\'s indentation')
+        for k, a in enumerate(c.args[1:3]):
+            ok_a = (isinstance(a, ast.Name) and a.id in init_params) or (self_attr(a) in self_from_param)
+            if not ok_a:
+                problems_w.append(f'`{norm(c)[:80]}`: argument {k + 2} is `{norm(a)}`, not the descriptor\'s own indent_by field / indent property')
+        got_names = [a.id if isinstance(a, ast.Name) else self_from_param.get(self_attr(a) or '', '?') for a in c.args[1:3]]
+        if got_names != init.params[2:4] and not problems_w:
+            problems_w.append(f'`{norm(c)[:80]}` passes {got_names}, expected {init.params[2:4]}')
+    ok = len(calls) >= 1 and not problems_w
+    ctx.check(ok, rid, 'models.meta_item_internal:repeated_meta_item_property', norm(calls[0])[:100] if calls else 'no call of _get_default_indent',
+              '; '.join(problems_w) or 'the default indent getter is not wired to (instance, indent_by_field, indent_property)', init.where,
+              note=norm(calls[0])[:100] if calls else '')
 
 
 def rule_ind_class(ctx: RuleContext, p: Program, rid: str) -> None:
@@ -278,6 +312,9 @@ def run(ctx: RuleContext, p: Program) -> None:
     ctx.try_rule(rule_ind_nowrite, p, 'IND-NOWRITE')
     from . import round4
     ctx.try_rule(round4.rule_memo, p, 'MEMO')
+    from . import c12 as _c12
+    ctx.try_rule(_c12.rule_bc_rt, p, _c12.grammar(p), 'BC-RT')
+    ctx.try_rule(round4.rule_desc_state, p, 'DESC-STATE')
     ctx.not_decided += ['concrete indentation strings', 'that inserted raw nodes print their own indent verbatim (C01/C02)']
     ctx.assumptions += ['MetaItem.from_value(indent=...) and BlockComment.from_value(indent=...) use the given indent (IND-CLASS '
                         'checks the generated from_value of MetaItem itself)']
